@@ -44,6 +44,9 @@ func Ecrecover(hash, sig []byte) ([]byte, error) {
 
 // SigToPub returns the public key that created the given signature.
 func SigToPub(hash, sig []byte) (*ecdsa.PublicKey, error) {
+	if len(sig) != 65 {
+		return nil, errors.New("invalid signature length")
+	}
 	// Convert to btcec input format with 'recovery id' v at the beginning.
 	btcsig := make([]byte, 65)
 	btcsig[0] = sig[64] + 27
